@@ -12,4 +12,8 @@ CASES = [
     dict(expect="silent", desc="merge: comparison flipped", edits=[dict(file=MG, old="            if active_count[0] < max_concurrent:", new="            if max_concurrent > active_count[0]:")]),
     dict(expect="fire", desc="seed C11/1: merge(max_concurrent) drops the scheduler for inners", names="F0-scheduler-forwarded", edits=[dict(file="reactivex/operators/_merge.py",
          old="            subscription.disposable = xs.subscribe(\n                on_next, on_error, on_completed, scheduler=scheduler\n            )", new="            subscription.disposable = xs.subscribe(on_next, on_error, on_completed)")]),
+    dict(expect="fire", desc="seed C11-r2/1: merge_all adds the outer subscription only after subscribing", names="J4-registered-before-subscribe", edits=[
+         dict(file="reactivex/operators/_merge.py", old="        m = SingleAssignmentDisposable()\n        group.add(m)\n", new=""),
+         dict(file="reactivex/operators/_merge.py", old="        m.disposable = source.subscribe(\n            on_next, on_error, on_completed, scheduler=scheduler\n        )\n        return group",
+              new="        group.add(\n            source.subscribe(on_next, on_error, on_completed, scheduler=scheduler)\n        )\n        return group")]),
 ]
